@@ -25,7 +25,14 @@ type Stream struct {
 	Chunk  func() int // size of the next chunk (>=1); nil = everything available
 	Reads  int
 	Sticky bool // deliver the last bytes together with the terminal condition (n>0, err)
+	// Guard, when set, is asked before every Read (position, requested length); answering true
+	// makes the stream fail with ErrGuard from then on (protective cap of an adapter).
+	Guard   func(pos, want int) bool
+	Guarded bool
 }
+
+// ErrGuard is delivered by a stream whose Guard refused to continue.
+var ErrGuard = errors.New("verif: protective cap")
 
 func (s *Stream) term() error {
 	if s.Fail {
@@ -38,6 +45,10 @@ func (s *Stream) Read(p []byte) (int, error) {
 	s.Reads++
 	if len(p) == 0 {
 		return 0, nil
+	}
+	if s.Guarded || (s.Guard != nil && s.Guard(s.Pos, len(p))) {
+		s.Guarded = true
+		return 0, ErrGuard
 	}
 	if s.Pos >= len(s.Data) {
 		return 0, s.term()
